@@ -336,5 +336,8 @@ func genC07(c *Ctx) {
 	//    Merkle proof / Merkle update / unknown types, level masks 1..7, valid
 	//    and invalid payload lengths): hashing stays linear in the cells
 	c07ExoticSharing(c, r.Fork(0xc07c))
+	// 9. trees around and beyond the hasher's depth limit, chains and deep
+	//    branches under a shallow root (a reused Hasher must survive the error)
+	c07Deep(c, r.Fork(0xc07d))
 	c07DumpStats()
 }
